@@ -99,7 +99,8 @@ def factorial_frame(rng, factors, reps=2, numerics=("x", "z"), kinds=None, extra
     for nm in names:
         k = factors[nm]
         if kinds.get(nm) == "code":
-            level_sets[nm] = [3 * i + 1 for i in range(k)]
+            # codes with different digit counts and a negative one: numeric order != text order
+            level_sets[nm] = sorted([10, 2, 33, -7, 100, 5][:k])
         else:
             level_sets[nm] = [f"{nm}{i}" for i in range(k)]
     rows = list(itertools.product(*[range(factors[nm]) for nm in names])) * reps
